@@ -137,7 +137,7 @@ func runHistory(kind string, ops []op, gen func(i int, last *handleResult, lastT
 	}
 	var obs []string
 	var done []op
-	nInter, nIncr, nRemoved, nUpdated, nStateful := 0, 0, 0, 0, 0
+	nInter, nIncr, nRemoved, nUpdated, nStateful, nWrap := 0, 0, 0, 0, 0, 0
 	i := 0
 	var last *handleResult
 	var lastTxt int64
@@ -156,6 +156,9 @@ func runHistory(kind string, ops []op, gen func(i int, last *handleResult, lastT
 			o = ops[i]
 		}
 		done = append(done, o)
+		if o.kind == 0 && o.rxt < eraRollover*1e9 && o.now >= eraRollover*1e9 || o.kind == 1 && o.rxt < eraRollover*1e9 && o.txt >= eraRollover*1e9 {
+			nWrap++
+		}
 		if o.kind == 0 {
 			before := server.VerifSnapshotTSS()
 			r := doHandle(o)
@@ -205,7 +208,10 @@ func runHistory(kind string, ops []op, gen func(i int, last *handleResult, lastT
 	if nUpdated > 0 {
 		tags = append(tags, "txupdated")
 	}
-	if nInter > 0 && nIncr > 0 && nRemoved > 0 {
+	if nWrap > 0 {
+		tags = append(tags, "across-rollover")
+	}
+	if nInter > 0 && nIncr > 0 && nRemoved > 0 && (kind != "tss.era" || nWrap > 0) {
 		tags = append(tags, "nt")
 	}
 	w.Case(kind, strings.Join(tags, ","), fmtOps(done), lib.V(lib.L(obs...), fmtFinal(final)))
@@ -228,7 +234,8 @@ type genState struct {
 	allRxt   map[int64][]int64  // receive times used per client
 	pend     []pending
 	lastOp   *op
-	burst    int64 // client id currently sending a burst (fills the 8 slots), or -1
+	burst    int64        // client id currently sending a burst (fills the 8 slots), or -1
+	eraOps   map[int]bool // era family: operations that are forced to straddle the rollover
 }
 
 func (g *genState) pickRxt(cid int64) int64 {
@@ -312,6 +319,13 @@ func (g *genState) next(i int, last *handleResult, lastTxt int64) (op, bool) {
 		}
 		rxt := g.pickRxt(cid)
 		var now int64
+		if g.eraOps[i] {
+			// received just before the rollover, handled just after it
+			rxt = eraRollover*1e9 - r.Range(1, 20000)
+			if g.t < rxt {
+				g.t = rxt
+			}
+		}
 		switch r.Intn(8) {
 		case 0:
 			now = rxt - r.Range(0, 2000) // clock reading not later than the receive stamp
@@ -323,6 +337,9 @@ func (g *genState) next(i int, last *handleResult, lastTxt int64) (op, bool) {
 			now = rxt + 2
 		default:
 			now = rxt + r.Range(1, 100000)
+		}
+		if g.eraOps[i] && r.Intn(4) != 0 {
+			now = eraRollover*1e9 + r.Range(0, 50000)
 		}
 		var org uint64
 		switch r.Intn(10) {
@@ -364,6 +381,20 @@ func genHistory(r *lib.Rng, nclients, nops int) {
 	g := &genState{r: r, nclients: nclients, nops: nops, t: baseSec*1e9 + r.Range(0, 1e9), replies: map[int64][]uint64{},
 		lastRxt: map[int64]int64{}, allRxt: map[int64][]int64{}, burst: -1}
 	runHistory("tss.hist", nil, g.next, nil)
+}
+
+// eraRollover is the instant the 32-bit seconds of an NTP timestamp wrap: 2036-02-07 06:28:16 UTC.
+const eraRollover = int64(2085978496)
+
+// genEraHistory: the same generator with the clock just before the NTP era rollover, so that
+// requests are received before and answered (or their transmit time reported) after it.
+func genEraHistory(r *lib.Rng, nclients, nops int) {
+	g := &genState{r: r, nclients: nclients, nops: nops, t: eraRollover*1e9 - r.Range(0, int64(nops)*300000), replies: map[int64][]uint64{},
+		lastRxt: map[int64]int64{}, allRxt: map[int64][]int64{}, burst: -1, eraOps: map[int]bool{}}
+	for k := 0; k < 1+r.Intn(3); k++ {
+		g.eraOps[r.Intn(nops)] = true
+	}
+	runHistory("tss.era", nil, g.next, []string{"era"})
 }
 
 // parse a replay line's ops
@@ -415,6 +446,8 @@ func Main(c06only bool) {
 			switch l[0] {
 			case "tss.hist":
 				runHistory("tss.hist", parseOps(l[2]), nil, nil)
+			case "tss.era":
+				runHistory("tss.era", parseOps(l[2]), nil, []string{"era"})
 			case "tss.flood":
 				f := lib.Fields(l[2])
 				flood(lib.ParseI(f[0]), lib.ParseI(f[1]), lib.ParseI(f[2]))
@@ -426,6 +459,9 @@ func Main(c06only bool) {
 					fullSeen[id] = true
 					fullFamily(lib.ParseI(f[0]), lib.ParseI(f[1]), lib.ParseI(f[2]))
 				}
+			case "tss.conc":
+				f := lib.Fields(l[2])
+				concCase(int(lib.ParseI(f[0])), int(lib.ParseI(f[1])), lib.ParseU(f[2]))
 			case "lsn.hist":
 				lsnLines = append(lsnLines, l)
 			case "lsn.slowlink":
@@ -454,6 +490,8 @@ func Main(c06only bool) {
 		wait = lsnParent(a, "")
 		waitSlow = lsnParent(a, "slow")
 		waitFb = lsnParent(a, "fallback")
+	} else {
+		wait = lsnParent(a, "few")
 	}
 	lockDiscipline()
 	r := lib.NewRng(a.Seed)
@@ -485,6 +523,15 @@ func Main(c06only bool) {
 		flood(variant, nextra, int64(r.Intn(1<<30)))
 	}
 	if c06only {
+		ne := 100
+		if a.Tier == "thorough" {
+			ne = 1000
+		}
+		for i := 0; i < ne; i++ {
+			genEraHistory(r.Fork(), 1+r.Intn(4), 5+r.Intn(60))
+		}
+	}
+	{
 		// one fill of the 2^20 clients carries several recorded parts of 60 operations each
 		nfam, nparts := 1, 5
 		if a.Tier == "thorough" {
@@ -493,6 +540,11 @@ func Main(c06only bool) {
 		for i := 0; i < nfam; i++ {
 			fullFamily(int64(i), int64(nparts), int64(r.Intn(1<<30)))
 		}
+	}
+	concCase(8, 1500, a.Seed)
+	if a.Tier == "thorough" {
+		concCase(16, 6000, a.Seed+1)
+		concCase(32, 1000, a.Seed+2)
 	}
 	wait()
 	waitSlow()
